@@ -104,6 +104,7 @@ func isMethodCall(t *Term, name string) bool {
 
 // isFieldOfRecv: t is recv.<field> possibly through the embedded inner sketch
 func isRecvField(t *Term, field string, via ...string) bool {
+	t = t.unver()
 	if t == nil || t.Op != "field" || t.Sym != field {
 		return false
 	}
@@ -113,7 +114,7 @@ func isRecvField(t *Term, field string, via ...string) bool {
 			x = x.Args[0]
 		}
 	}
-	return x.isParam(0)
+	return x.isRecv()
 }
 
 // stripInner: looks through recv.<inner> (the embedded *DDSketch of the exact variant)
@@ -346,3 +347,89 @@ func (c *Ctx) ipos(in ssa.Instruction) string { return c.P.pos(instrPos(in)) }
 
 // shortFn: the last path element of a function name for obligation keys.
 func shortFn(f *ssa.Function) string { return funcName(f) }
+
+// ---------------------------------------------------------------------------
+// the paginated store's representation routines, resolved by role
+
+type paginatedRoles struct {
+	typ     *types.Named
+	sort    *ssa.Function // calls sort.Ints on a receiver field
+	compact *ssa.Function // func() method that calls the sort routine (moves buffered indexes into pages)
+	bufFld  string
+	err     string
+}
+
+func (c *Ctx) paginated() *paginatedRoles {
+	if c.pag != nil {
+		return c.pag
+	}
+	r := &paginatedRoles{}
+	c.pag = r
+	r.typ = c.P.NamedType(pkgStore, "BufferedPaginatedStore")
+	if r.typ == nil {
+		r.err = "type store.BufferedPaginatedStore not found"
+		return r
+	}
+	var sorts []*ssa.Function
+	for i := 0; i < r.typ.NumMethods(); i++ {
+		f := c.P.SSA.FuncValue(r.typ.Method(i))
+		if f == nil {
+			continue
+		}
+		tc := newTermCtx(c.P)
+		for _, b := range f.Blocks {
+			for _, in := range b.Instrs {
+				if call, ok := in.(*ssa.Call); ok {
+					if fn, ok := call.Common().Value.(*ssa.Function); ok && fn.String() == "sort.Ints" {
+						t := tc.Of(call.Common().Args[0])
+						if t.Op == "field" && t.Args[0].isParam(0) {
+							sorts = append(sorts, f)
+							r.bufFld = t.Sym
+						}
+					}
+				}
+			}
+		}
+	}
+	if len(sorts) != 1 {
+		r.err = fmt.Sprintf("expected exactly one method sorting a receiver field with sort.Ints, found %d", len(sorts))
+		return r
+	}
+	r.sort = sorts[0]
+	var compacts []*ssa.Function
+	for i := 0; i < r.typ.NumMethods(); i++ {
+		f := c.P.SSA.FuncValue(r.typ.Method(i))
+		if f == nil || f == r.sort || len(f.Params) != 1 || f.Signature.Results().Len() != 0 {
+			continue
+		}
+		calls := false
+		for _, b := range f.Blocks {
+			for _, in := range b.Instrs {
+				if call, ok := in.(*ssa.Call); ok {
+					if fn, ok := call.Common().Value.(*ssa.Function); ok && fn == r.sort {
+						calls = true
+					}
+				}
+			}
+		}
+		if calls {
+			compacts = append(compacts, f)
+		}
+	}
+	if len(compacts) != 1 {
+		r.err = fmt.Sprintf("expected exactly one parameterless method calling the sort routine (compaction), found %d", len(compacts))
+		return r
+	}
+	r.compact = compacts[0]
+	return r
+}
+
+// Mod2 is the write-set analysis in which the paginated store's sort and compaction routines are
+// factored out (treated as writing nothing): what remains is genuine, observable state change.
+func (c *Ctx) Mod2() *ModAnalysis {
+	if c.mod2 == nil {
+		r := c.paginated()
+		c.mod2 = newModAnalysis(c.P, r.sort, r.compact)
+	}
+	return c.mod2
+}
